@@ -32,6 +32,7 @@ const (
 	stageCopyFrom
 	stageSetStruct
 	stageMemberSetPtr
+	stagePrimMember // a member of an 8-byte or pointer list of the destination message, assigned within that message
 	nStages
 )
 
@@ -50,6 +51,21 @@ type Case struct {
 	StageDW int             `json:"stage_dw"`
 	StagePC int             `json:"stage_pc"`
 	CapIDs  []int           `json:"cap_ids"` // source cap table: identity per index (-1 nil)
+	Prefill bool            `json:"prefill"`  // SetStruct/CopyFrom destinations already hold non-zero data and pointers
+	PrimSel int             `json:"prim_sel"` // stagePrimMember: 0 UInt64 list, 1 pointer list, 2 UInt32 list
+}
+
+// prefill writes non-default content into every word and pointer of a destination struct.
+func prefill(st capnp.Struct, dw, pc int) error {
+	for i := 0; i < dw; i++ {
+		st.SetUint64(capnp.DataOffset(i*8), 0x2222222222222222)
+	}
+	for i := 0; i < pc; i++ {
+		if err := st.SetText(uint16(i), "previous content of the destination"); err != nil {
+			return err
+		}
+	}
+	return nil
 }
 
 // resize applies the documented version rule to the top-level struct only.
@@ -233,6 +249,11 @@ func run(c Case) (pbt.Result, error) {
 		if err := droot.SetPtr(0, cl.ToPtr()); err != nil {
 			return fail("SetPtr", err)
 		}
+		if c.Prefill {
+			if err := prefill(cl.Struct(1), c.DstDW, c.DstPC); err != nil {
+				return fail("prefill", err)
+			}
+		}
 		if err := cl.SetStruct(1, sp.Struct()); err != nil {
 			return fail("List.SetStruct", err)
 		}
@@ -245,6 +266,11 @@ func run(c Case) (pbt.Result, error) {
 		}
 		if err := droot.SetPtr(0, d.ToPtr()); err != nil {
 			return fail("SetPtr", err)
+		}
+		if c.Prefill {
+			if err := prefill(d, c.DstDW, c.DstPC); err != nil {
+				return fail("prefill", err)
+			}
 		}
 		if err := d.CopyFrom(sp.Struct()); err != nil {
 			return fail("Struct.CopyFrom", err)
@@ -260,7 +286,82 @@ func run(c Case) (pbt.Result, error) {
 	if c.Op == opSetRoot {
 		stage = stageNone
 	}
-	if stage != stageNone {
+	if stage == stagePrimMember {
+		pl, err := capnp.NewPointerList(dseg, 2)
+		if err != nil {
+			return fail("NewPointerList", err)
+		}
+		if err := droot.SetPtr(1, pl.ToPtr()); err != nil {
+			return fail("SetPtr", err)
+		}
+		var listVal, memberVal ref.Value
+		switch c.PrimSel % 3 {
+		case 0:
+			l, err := capnp.NewUInt64List(dseg, 3)
+			if err != nil {
+				return fail("NewUInt64List", err)
+			}
+			for i := 0; i < 3; i++ {
+				l.Set(i, 0x1111111111111111*uint64(i+1))
+			}
+			if err := pl.Set(0, l.ToPtr()); err != nil {
+				return fail("PointerList.Set", err)
+			}
+			if err := pl.Set(1, l.List.Struct(1).ToPtr()); err != nil {
+				return fail("PointerList.Set(member of an 8-byte list, same message)", err)
+			}
+			l.Set(1, 0xdddddddddddddddd) // a later change of the list must not show through the copy
+			prim := make([]byte, 24)
+			for i, v := range []uint64{0x1111111111111111, 0xdddddddddddddddd, 0x3333333333333333} {
+				for b := 0; b < 8; b++ {
+					prim[i*8+b] = byte(v >> (8 * uint(b)))
+				}
+			}
+			listVal = ref.Value{Kind: ref.KList, LK: ref.LB8, N: 3, Prim: prim}
+			memberVal = ref.StructV([]byte{0x22, 0x22, 0x22, 0x22, 0x22, 0x22, 0x22, 0x22})
+		case 2:
+			l, err := capnp.NewUInt32List(dseg, 4)
+			if err != nil {
+				return fail("NewUInt32List", err)
+			}
+			for i := 0; i < 4; i++ {
+				l.Set(i, 0x11111111*uint32(i+1))
+			}
+			if err := pl.Set(0, l.ToPtr()); err != nil {
+				return fail("PointerList.Set", err)
+			}
+			if err := pl.Set(1, l.List.Struct(2).ToPtr()); err != nil {
+				return fail("PointerList.Set(member of a 4-byte list, same message)", err)
+			}
+			l.Set(2, 0xdddddddd)
+			prim := make([]byte, 16)
+			for i, v := range []uint32{0x11111111, 0x22222222, 0xdddddddd, 0x44444444} {
+				for b := 0; b < 4; b++ {
+					prim[i*4+b] = byte(v >> (8 * uint(b)))
+				}
+			}
+			listVal = ref.Value{Kind: ref.KList, LK: ref.LB4, N: 4, Prim: prim}
+			memberVal = ref.StructV([]byte{0x33, 0x33, 0x33, 0x33, 0, 0, 0, 0})
+		default:
+			l, err := capnp.NewTextList(dseg, 2)
+			if err != nil {
+				return fail("NewTextList", err)
+			}
+			l.Set(0, "first")
+			l.Set(1, "second")
+			if err := pl.Set(0, l.ToPtr()); err != nil {
+				return fail("PointerList.Set", err)
+			}
+			if err := pl.Set(1, l.List.Struct(1).ToPtr()); err != nil {
+				return fail("PointerList.Set(member of a pointer list, same message)", err)
+			}
+			l.Set(1, "changed afterwards")
+			listVal = ref.Value{Kind: ref.KList, LK: ref.LPtr, N: 2, Elems: []ref.Value{ref.TextV("first"), ref.TextV("changed afterwards")}}
+			memberVal = ref.StructV(nil, ref.TextV("second"))
+		}
+		expect1 = ref.Value{Kind: ref.KList, LK: ref.LPtr, N: 2, Elems: []ref.Value{listVal, memberVal}}
+		res.Class("stage:%d/%d", stage, c.PrimSel%3)
+	} else if stage != stageNone {
 		p0, err := droot.Ptr(0)
 		if err != nil {
 			return res, pbt.Fail("read-back-error", "%v", err)
@@ -434,7 +535,7 @@ func clip(v ref.Value) string {
 
 var _ = pbt.Register(pbt.Spec[Case]{
 	Property: "C16", Name: "deep-copy",
-	Rule:     "source: value tree (all kinds, caps) in a drawn encoding (1-4 segments, far/double-far), taken as a pointer, as a member of a struct list, or as a member of a 1/2/4/8-byte primitive list; destination: fresh message in 5 arena kinds (small/exact capacities so the copy itself exhausts segments), via SetRoot, Struct.SetPtr, PointerList.Set, List.SetStruct and Struct.CopyFrom into smaller/equal/larger struct sizes; optional second stage copying inside the destination message (CopyFrom, SetStruct, list-member SetPtr). Oracle: Marshal of the destination decoded by the independent strict decoder equals the source value with only the top-level struct truncated/zero-extended; all reachable objects pairwise disjoint (no aliasing between copy, source-in-same-message and siblings); the source message's bytes are untouched by the copy and then overwritten with 0xEE before the destination is checked; copied capability pointers index one new table entry each, IsSame as the source client, holding their own reference (Shutdown counts after resetting source then destination). Non-trivial: destination has >=2 segments, sizes differ, or capabilities present.",
+	Rule:     "source: value tree (all kinds, caps) in a drawn encoding (1-4 segments, far/double-far), taken as a pointer, as a member of a struct list, or as a member of a 1/2/4/8-byte primitive list; destination: fresh message in 5 arena kinds (small/exact capacities so the copy itself exhausts segments), via SetRoot, Struct.SetPtr, PointerList.Set, List.SetStruct and Struct.CopyFrom into smaller/equal/larger struct sizes; SetStruct/CopyFrom destinations are zeroed or pre-filled with non-default data and pointers; optional second stage copying inside the destination message (CopyFrom, SetStruct, struct-list-member SetPtr, or a member of an 8-byte / 4-byte / pointer list assigned next to its list and the list changed afterwards). Oracle: Marshal of the destination decoded by the independent strict decoder equals the source value with only the top-level struct truncated/zero-extended; all reachable objects pairwise disjoint (no aliasing between copy, source-in-same-message and siblings); the source message's bytes are untouched by the copy and then overwritten with 0xEE before the destination is checked; copied capability pointers index one new table entry each, IsSame as the source client, holding their own reference (Shutdown counts after resetting source then destination). Non-trivial: destination has >=2 segments, sizes differ, or capabilities present.",
 	Quick:    12000, Thorough: 100000,
 	Gen: func(t *rapid.T) Case {
 		c := Case{
@@ -449,6 +550,8 @@ var _ = pbt.Register(pbt.Spec[Case]{
 			StagePC: rapid.IntRange(0, 4).Draw(t, "spc"),
 			Idx:     rapid.IntRange(0, 20).Draw(t, "idx"),
 			CapIDs:  rapid.SliceOfN(rapid.IntRange(-1, 2), 0, 5).Draw(t, "capids"),
+			Prefill: rapid.Bool().Draw(t, "prefill"),
+			PrimSel: rapid.IntRange(0, 2).Draw(t, "primsel"),
 		}
 		switch rapid.IntRange(0, 5).Draw(t, "member") {
 		case 0:
